@@ -9,9 +9,12 @@ import (
 	"crypto/sha256"
 	"crypto/x509"
 	"crypto/x509/pkix"
+	"encoding/asn1"
 	"encoding/pem"
 	"fmt"
 	"math/big"
+	"net"
+	"net/url"
 	"os"
 	"strings"
 	"time"
@@ -38,11 +41,25 @@ type mAttr struct {
 	excluded   []string
 	dns        []string
 	eku        []x509.ExtKeyUsage
+	// widened alphabets (widen_topo.go); all empty in the first-version topologies
+	ekuUnknown           bool     // an extended key usage OID the library has no constant for (in addition to eku)
+	emails, uris, ips    []string // subjectAltName rfc822Name / uniformResourceIdentifier / iPAddress (textual)
+	permEmail, exclEmail []string
+	permURI, exclURI     []string
+	permIP, exclIP       []string // CIDR
+}
+
+func (a *mAttr) wide() bool {
+	return a.ekuUnknown || len(a.emails)+len(a.uris)+len(a.ips)+len(a.permEmail)+len(a.exclEmail)+len(a.permURI)+len(a.exclURI)+len(a.permIP)+len(a.exclIP) > 0
 }
 
 func (a *mAttr) id() string {
-	return fmt.Sprintf("%s|%s|%s|%s|%s|%d|%d|%d|%d|%d|%v|%v|%v|%v", a.name, a.key.name, a.issuerName, a.signer.name, a.akiOf.name,
+	s := fmt.Sprintf("%s|%s|%s|%s|%s|%d|%d|%d|%d|%d|%v|%v|%v|%v", a.name, a.key.name, a.issuerName, a.signer.name, a.akiOf.name,
 		a.caMode, a.ku, a.nb.Unix(), a.na.Unix(), a.pathlen, a.permitted, a.excluded, a.dns, a.eku)
+	if a.wide() {
+		s += fmt.Sprintf("|W|%v|%q|%q|%q|%q|%q|%q|%q|%q|%q", a.ekuUnknown, a.emails, a.uris, a.ips, a.permEmail, a.exclEmail, a.permURI, a.exclURI, a.permIP, a.exclIP)
+	}
+	return s
 }
 
 func (a *mAttr) selfIssued() bool { return a.name == a.issuerName }
@@ -83,7 +100,35 @@ func instantiate(a mAttr) (*mCert, error) {
 		PermittedDNSDomains: a.permitted,
 		ExcludedDNSDomains:  a.excluded,
 	}
-	if len(a.permitted)+len(a.excluded) > 0 {
+	if a.wide() {
+		if a.ekuUnknown {
+			tpl.UnknownExtKeyUsage = []asn1.ObjectIdentifier{oidCustom1}
+		}
+		tpl.EmailAddresses = a.emails
+		for _, u := range a.uris {
+			pu, err := url.Parse(u)
+			if err != nil {
+				return nil, fmt.Errorf("c15: model URI %q: %v", u, err)
+			}
+			tpl.URIs = append(tpl.URIs, pu)
+		}
+		for _, ip := range a.ips {
+			pi := net.ParseIP(ip)
+			if pi == nil {
+				return nil, fmt.Errorf("c15: model IP %q does not parse", ip)
+			}
+			tpl.IPAddresses = append(tpl.IPAddresses, pi)
+		}
+		tpl.PermittedEmailAddresses, tpl.ExcludedEmailAddresses = a.permEmail, a.exclEmail
+		tpl.PermittedURIDomains, tpl.ExcludedURIDomains = a.permURI, a.exclURI
+		for _, c := range a.permIP {
+			tpl.PermittedIPRanges = append(tpl.PermittedIPRanges, mustCIDR(c))
+		}
+		for _, c := range a.exclIP {
+			tpl.ExcludedIPRanges = append(tpl.ExcludedIPRanges, mustCIDR(c))
+		}
+	}
+	if len(a.permitted)+len(a.excluded)+len(a.permEmail)+len(a.exclEmail)+len(a.permURI)+len(a.exclURI)+len(a.permIP)+len(a.exclIP) > 0 {
 		tpl.PermittedDNSDomainsCritical = true
 	}
 	switch a.caMode {
@@ -435,7 +480,10 @@ type pki struct {
 	// rootMaxLen > 0: the roots were added with AddCertWithConstraint and a constraint that rejects every chain of
 	// more than rootMaxLen certificates
 	rootMaxLen int
-	spec       *pkiSpec
+	// widened VerifyOptions (widen_topo.go); zero values = the first-version options
+	reqEKU []x509.ExtKeyUsage // VerifyOptions.KeyUsages
+	maxCmp int                // VerifyOptions.MaxConstraintComparisions
+	spec   *pkiSpec
 	leaf   *mCert
 	inter  []*mCert
 	roots  []*mCert
@@ -493,6 +541,10 @@ func mkPool(cs []*mCert, poolMode int) *smx509.CertPool {
 	}
 	if len(buf) > 0 {
 		pool.AppendCertsFromPEM(buf)
+		// the PEM text belongs to the caller: it is overwritten before the pool is used (the pool parses lazily)
+		for i := range buf {
+			buf[i] = '#'
+		}
 	}
 	return pool
 }
@@ -500,20 +552,166 @@ func mkPool(cs []*mCert, poolMode int) *smx509.CertPool {
 // ---------------------------------------------------------------------------------------------
 // the path predicate over model attributes (RFC 5280 section 6 restricted to what the property names)
 
+// dnsWithin: RFC 5280 4.2.1.10 -- a dNSName satisfies a constraint if it is the constraint with zero or more labels added
+// on the left; DNS names compare case-insensitively. A constraint with a leading period is the form Certificate.Verify
+// documents in addition: at least one label must be added.
 func dnsWithin(name, constraint string) bool {
+	name, constraint = strings.ToLower(name), strings.ToLower(constraint)
+	if strings.HasPrefix(constraint, ".") {
+		return strings.HasSuffix(name, constraint) && len(name) > len(constraint)
+	}
 	return name == constraint || strings.HasSuffix(name, "."+constraint)
 }
 
-func hasServerAuth(eku []x509.ExtKeyUsage) bool {
-	if len(eku) == 0 {
+// tri-state answers of the matchers for the name forms where RFC 5280 and common practice differ: an "open" answer
+// never produces a finding (not excluded, and permitted).
+const (
+	mNo = iota
+	mYes
+	mOpen
+)
+
+// hostMatch: RFC 5280 4.2.1.10 for the host part of rfc822Name and URI constraints: a constraint with a leading period
+// is satisfied by every host that adds one or more labels; without it, by exactly that host. Whether a constraint
+// without a leading period also covers sub-domains is treated as open (the library says yes, the RFC says no).
+func hostMatch(host, constraint string) int {
+	host, constraint = strings.ToLower(host), strings.ToLower(constraint)
+	if strings.HasPrefix(constraint, ".") {
+		if strings.HasSuffix(host, constraint) && len(host) > len(constraint) {
+			return mYes
+		}
+		return mNo
+	}
+	if host == constraint {
+		return mYes
+	}
+	if strings.HasSuffix(host, "."+constraint) {
+		return mOpen
+	}
+	return mNo
+}
+
+func emailMatch(addr, constraint string) int {
+	at := strings.LastIndexByte(addr, '@')
+	if at < 0 {
+		return mOpen
+	}
+	local, host := addr[:at], addr[at+1:]
+	if cat := strings.LastIndexByte(constraint, '@'); cat >= 0 {
+		// a particular mailbox: the local part is compared exactly, the host case-insensitively
+		if local == constraint[:cat] && strings.EqualFold(host, constraint[cat+1:]) {
+			return mYes
+		}
+		return mNo
+	}
+	return hostMatch(host, constraint)
+}
+
+func uriMatch(uri, constraint string) int {
+	u, err := url.Parse(uri)
+	if err != nil || u.Hostname() == "" || net.ParseIP(u.Hostname()) != nil {
+		return mOpen
+	}
+	return hostMatch(u.Hostname(), constraint)
+}
+
+func ipMatch(ip, cidr string) int {
+	a := net.ParseIP(ip)
+	_, n, err := net.ParseCIDR(cidr)
+	if a == nil || err != nil {
+		return mOpen
+	}
+	if (a.To4() != nil) != (n.IP.To4() != nil) {
+		return mOpen // a constraint of the other address family
+	}
+	if n.Contains(a) {
+		return mYes
+	}
+	return mNo
+}
+
+// formViolation judges the names of one form against the excluded and permitted lists of one CA.
+func formViolation(form string, names, permitted, excluded []string, match func(name, constraint string) int) string {
+	for _, nm := range names {
+		for _, ex := range excluded {
+			if match(nm, ex) == mYes {
+				return fmt.Sprintf("excludes %s %q, which covers %q", form, ex, nm)
+			}
+		}
+		if len(permitted) > 0 {
+			ok := false
+			for _, pe := range permitted {
+				ok = ok || match(nm, pe) != mNo
+			}
+			if !ok {
+				return fmt.Sprintf("permits only %s %q, not %q", form, permitted, nm)
+			}
+		}
+	}
+	return ""
+}
+
+func dnsMatch(name, constraint string) int {
+	if dnsWithin(name, constraint) {
+		return mYes
+	}
+	return mNo
+}
+
+// ncViolation: do the names claimed by sub violate a name constraint of ca? ("" = no)
+func ncViolation(ca, sub *mAttr) string {
+	if w := formViolation("dNSName", sub.dns, ca.permitted, ca.excluded, dnsMatch); w != "" {
+		return w
+	}
+	if w := formViolation("rfc822Name", sub.emails, ca.permEmail, ca.exclEmail, emailMatch); w != "" {
+		return w
+	}
+	if w := formViolation("URI", sub.uris, ca.permURI, ca.exclURI, uriMatch); w != "" {
+		return w
+	}
+	return formViolation("iPAddress", sub.ips, ca.permIP, ca.exclIP, ipMatch)
+}
+
+// usageAllowed: does a certificate with these extended key usages allow usage u? (no EKU extension: everything;
+// anyExtendedKeyUsage: everything; otherwise u must be listed -- as documented on Certificate.Verify)
+func usageAllowed(a *mAttr, u x509.ExtKeyUsage) bool {
+	if len(a.eku) == 0 && !a.ekuUnknown {
 		return true
 	}
-	for _, u := range eku {
-		if u == x509.ExtKeyUsageServerAuth || u == x509.ExtKeyUsageAny {
+	for _, e := range a.eku {
+		if e == x509.ExtKeyUsageAny || e == u {
 			return true
 		}
 	}
 	return false
+}
+
+// chainAllowsUsage: VerifyOptions.KeyUsages as documented -- empty means serverAuth, anyExtendedKeyUsage disables the
+// check, otherwise at least one requested usage must be allowed by every certificate of the chain.
+func chainAllowsUsage(chain []*mCert, req []x509.ExtKeyUsage) (bool, string) {
+	if len(req) == 0 {
+		req = []x509.ExtKeyUsage{x509.ExtKeyUsageServerAuth}
+	}
+	for _, u := range req {
+		if u == x509.ExtKeyUsageAny {
+			return true, ""
+		}
+	}
+	why := ""
+	for _, u := range req {
+		all := true
+		for i, c := range chain {
+			if !usageAllowed(&c.mAttr, u) {
+				all = false
+				why += fmt.Sprintf("usage %d is not allowed by %s (position %d, extended key usages %v, unknown=%v); ", int(u), c.name, i, c.eku, c.ekuUnknown)
+				break
+			}
+		}
+		if all {
+			return true, ""
+		}
+	}
+	return false, why
 }
 
 // judge returns "" if the chain is acceptable by the model at time at, else (finding class, reason).
@@ -557,27 +755,14 @@ func (p *pki) judge(chain []*mCert, at time.Time) (string, string) {
 				return "path-length-exceeded", fmt.Sprintf("%s (position %d) allows %d intermediates, %d follow", c.name, i, c.pathlen, i-1)
 			}
 			for j := 0; j < i; j++ {
-				for _, nm := range chain[j].dns {
-					for _, ex := range c.excluded {
-						if dnsWithin(nm, ex) {
-							return "name-constraint-violated", fmt.Sprintf("%s excludes %q, %s claims %q", c.name, ex, chain[j].name, nm)
-						}
-					}
-					if len(c.permitted) > 0 {
-						ok := false
-						for _, pe := range c.permitted {
-							ok = ok || dnsWithin(nm, pe)
-						}
-						if !ok {
-							return "name-constraint-violated", fmt.Sprintf("%s permits only %q, %s claims %q", c.name, c.permitted, chain[j].name, nm)
-						}
-					}
+				if why := ncViolation(&c.mAttr, &chain[j].mAttr); why != "" {
+					return "name-constraint-violated", fmt.Sprintf("%s %s (claimed by %s)", c.name, why, chain[j].name)
 				}
 			}
 		}
-		if !hasServerAuth(c.eku) {
-			return "eku-nesting-violated", fmt.Sprintf("%s (position %d) restricts extended key usage to %v, serverAuth was requested", c.name, i, c.eku)
-		}
+	}
+	if ok, why := chainAllowsUsage(chain, p.reqEKU); !ok {
+		return "eku-nesting-violated", fmt.Sprintf("requested usages %v: %s", p.reqEKU, why)
 	}
 	return "", ""
 }
@@ -607,6 +792,12 @@ func (p *pki) modelHasChain(at time.Time) bool {
 		}
 		return false
 	}
+	if p.isRoot[p.leaf] {
+		// the start certificate is itself a trust anchor
+		if k, _ := p.judge([]*mCert{p.leaf}, at); k == "" {
+			return true
+		}
+	}
 	return rec([]*mCert{p.leaf})
 }
 
@@ -619,14 +810,52 @@ func inChain(chain []*mCert, c *mCert) bool {
 	return false
 }
 
+// judgeReturned applies the one-directional oracle to what Certificate.Verify returned.
+func (p *pki) judgeReturned(t *engine.T, desc func() string, chains [][]*smx509.Certificate, err error, at time.Time) {
+	if err == nil && len(chains) == 0 {
+		t.Fail("topo/nil-error-without-chain", "%s: Verify returned no error and no chain", desc())
+	}
+	if err != nil && len(chains) != 0 {
+		t.Fail("topo/error-with-chain", "%s: Verify returned %d chains together with error %v", desc(), len(chains), err)
+	}
+	for _, ch := range chains {
+		var mc []*mCert
+		unknown := false
+		for _, c := range ch {
+			m, ok := mByRaw[string(c.Raw)]
+			if !ok {
+				unknown = true
+				break
+			}
+			mc = append(mc, m)
+		}
+		if unknown {
+			t.Fail("topo/chain-with-unknown-certificate", "%s: a returned chain contains a certificate that was never put into a pool", desc())
+			continue
+		}
+		if kind, why := p.judge(mc, at); kind != "" {
+			var names []string
+			for _, m := range mc {
+				names = append(names, fmt.Sprintf("%s[key %s, signed by %s]", m.name, m.key.name, m.signer.name))
+			}
+			t.Fail("topo/accepted-invalid-chain/"+kind, "%s: Verify returned the chain %v which the model rejects: %s", desc(), names, why)
+		}
+	}
+}
+
 // ---------------------------------------------------------------------------------------------
 // one verification
 
 func verifyOnce(t *engine.T, p *pki, devs []deviation, vt vtime, poolMode int, mustVerify bool) string {
 	desc := func() string {
-		return fmt.Sprintf("mode=%s intermediates=%d deviations=%v time=%s pool=%d", p.spec.mode, p.spec.n, devs, vt.name, poolMode)
+		s := fmt.Sprintf("mode=%s intermediates=%d deviations=%v time=%s pool=%d", p.spec.mode, p.spec.n, devs, vt.name, poolMode)
+		if len(p.reqEKU) > 0 || p.maxCmp != 0 {
+			s += fmt.Sprintf(" KeyUsages=%v MaxConstraintComparisions=%d", p.reqEKU, p.maxCmp)
+		}
+		return s
 	}
-	opts := smx509.VerifyOptions{Roots: mkPool(p.roots, poolMode), Intermediates: mkPool(p.inter, poolMode), CurrentTime: vt.t}
+	opts := smx509.VerifyOptions{Roots: mkPool(p.roots, poolMode), Intermediates: mkPool(p.inter, poolMode), CurrentTime: vt.t,
+		KeyUsages: append([]x509.ExtKeyUsage(nil), p.reqEKU...), MaxConstraintComparisions: p.maxCmp}
 	p.rootMaxLen = 0
 	if poolMode == 2 {
 		// roots registered with a constraint callback: chains of more than 3 certificates are refused by it
@@ -668,35 +897,7 @@ func verifyOnce(t *engine.T, p *pki, devs []deviation, vt vtime, poolMode int, m
 		return "panic"
 	}
 	t.Eval(1)
-	if err == nil && len(chains) == 0 {
-		t.Fail("topo/nil-error-without-chain", "%s: Verify returned no error and no chain", desc())
-	}
-	if err != nil && len(chains) != 0 {
-		t.Fail("topo/error-with-chain", "%s: Verify returned %d chains together with error %v", desc(), len(chains), err)
-	}
-	for _, ch := range chains {
-		var mc []*mCert
-		unknown := false
-		for _, c := range ch {
-			m, ok := mByRaw[string(c.Raw)]
-			if !ok {
-				unknown = true
-				break
-			}
-			mc = append(mc, m)
-		}
-		if unknown {
-			t.Fail("topo/chain-with-unknown-certificate", "%s: a returned chain contains a certificate that was never put into a pool", desc())
-			continue
-		}
-		if kind, why := p.judge(mc, vt.t); kind != "" {
-			var names []string
-			for _, m := range mc {
-				names = append(names, fmt.Sprintf("%s[key %s, signed by %s]", m.name, m.key.name, m.signer.name))
-			}
-			t.Fail("topo/accepted-invalid-chain/"+kind, "%s: Verify returned the chain %v which the model rejects: %s", desc(), names, why)
-		}
-	}
+	p.judgeReturned(t, desc, chains, err, vt.t)
 	has := p.modelHasChain(vt.t)
 	t.Extra("chains_judged", len(chains))
 	if debugOutcomes && os.Getenv("C15_DEBUG") == "2" {
